@@ -1,11 +1,52 @@
 """C09 -- authentication and authorization are sound (see contracts/auth.py for the contract list)."""
-from pyvc.prop import Property, Bounded
+import ast
+
+from pyvc.engine import load_module_ast, Unsupported
+from pyvc.prop import Property, Bounded, Structural
 from . import auth as A
 from harness.e2e_auth import bounded_auth
+
+
+def session_only_for_an_existing_user():
+    """Identity.new_session (dict and maildir) looks the user record up -- unconditionally, on every path -- before the
+    Session is constructed, and a missing record leaves through UserNotFound: a session is never opened for an account
+    that does not exist (any more) at that moment, whatever happened since authenticate()."""
+    out = []
+    for relfile, lookup in ((A.FD, 'self.get'), (A.FM, 'users_file.get')):
+        src, tree = load_module_ast(relfile)
+        fn = None
+        for cls in ast.walk(tree):
+            if isinstance(cls, ast.ClassDef) and cls.name == 'Identity':
+                for f in cls.body:
+                    if isinstance(f, ast.AsyncFunctionDef) and f.name == 'new_session':
+                        fn = f
+        if fn is None:
+            raise Unsupported(f'Identity.new_session not found in {relfile}')
+        name = f"{relfile[:-3].replace('/', '.').replace('.__init__', '')}.Identity.new_session"
+
+        def first_line(pred, node=fn):
+            lines = [n.lineno for n in ast.walk(node) if pred(n)]
+            return min(lines) if lines else None
+        look = first_line(lambda n: isinstance(n, ast.Call) and ast.unparse(n.func) == lookup)
+        sess = first_line(lambda n: isinstance(n, ast.Call) and ast.unparse(n.func) == 'Session')
+        ok = look is not None and sess is not None and look < sess
+        # the lookup must not sit under an if / loop (it has to happen on every path); try/with are fine
+        if ok:
+            for n in ast.walk(fn):
+                if isinstance(n, (ast.If, ast.For, ast.While, ast.AsyncFor)) and any(
+                        isinstance(c, ast.Call) and ast.unparse(c.func) == lookup for c in ast.walk(n)):
+                    ok = False
+        out.append((f'{name}/the_user_record_is_looked_up_on_every_path_before_the_session_is_created', ok,
+                    f'{name}: lookup {lookup}() at line {look}, Session(...) at line {sess}'))
+        if relfile == A.FM:
+            raises = any(isinstance(n, ast.Raise) and n.exc is not None and 'UserNotFound' in ast.unparse(n.exc) for n in ast.walk(fn))
+            out.append((f'{name}/a_missing_record_leaves_through_UserNotFound', raises, f'{name}: no raise UserNotFound'))
+    return out
 
 PROPERTY = Property(
     'C09', 'Authentication and authorization are sound',
     contracts=A.CONTRACTS, registry=A.REG,
+    structural=[Structural('session_only_for_an_existing_user', session_only_for_an_existing_user)],
     bounded=[Bounded('credential attempts and attempt sequences on the real IMAP and ManageSieve servers (dict backend, real hashing)',
                      '71 attempts: LOGIN with 23 (user, password) pairs (wrong, empty, prefix, trailing space, other case, other user\'s '
                      'password, 30000 bytes, NUL, non-ASCII, unknown/empty/oversized user); AUTHENTICATE PLAIN for authzid x authcid x '
